@@ -70,6 +70,7 @@ PROPS = {
         "jobs": [
             {"scen": "hostile_cli", "sets": {}, "quick": 4000, "thorough": 300000},
             {"scen": "hostile_cli", "sets": {"raw": True}, "quick": 500, "thorough": 30000},
+            {"scen": "hostile_cli", "sets": {"focus": "spoof"}, "quick": 1200, "thorough": 80000},
         ],
         "expect_probes": ["c06.replaced.v", "c06.replaced.l", "c06.replaced.y", "c06.replaced.z", "c06.replaced.s", "c06.replaced.o", "c06.replaced.r", "c06.replaced.n", "c06.replaced.p", "c06.replaced.i", "c06.raw_replaced"],
     },
